@@ -5,6 +5,7 @@ use crate::run::Case;
 pub mod c02;
 pub mod c03;
 pub mod c06;
+pub mod c07;
 pub mod c08;
 
 #[derive(Clone, Copy, PartialEq, Debug)]
@@ -29,7 +30,7 @@ pub struct PropDef {
 }
 
 pub fn all() -> Vec<PropDef> {
-    vec![c02::def(), c03::def(), c06::def(), c08::def()]
+    vec![c02::def(), c03::def(), c06::def(), c07::def(), c08::def()]
 }
 
 pub fn find(id: &str) -> Option<PropDef> {
